@@ -262,11 +262,31 @@ def oracle(spec):
             "sample": {"net": netgen.summarize(spec), "history": [s["kind"] for s in spec["c05"]], "outcomes": tags}}
 
 
+def scripted_clause_check():
+    """the clause 'with automatic damping the accepted step was undamped' evaluated on the real driver for the
+    two kernel-checked witnesses of Props/C05.lean"""
+    fails = []
+    w1 = [(0.0, [1.0]), (0.0, [2.0]), (0.0, [1e-6])]
+    c, n, a, tr = run_real(w1, 1, True, 10, 1)
+    if c and abs(tr[-1][0] - 1.0) > 1e-12:
+        fails.append({"fingerprint": "C05:accepted-step-damped", "clause": "accepted step undamped (automatic)",
+                      "detail": {"errors": [1.0, 2.0, 1e-6], "alpha_in_force_for_accepted_step": tr[-1][0], "niter": n},
+                      "replay": {"case": {"scripted": "w1"}}})
+    w2 = [(0.0, [1.0, 1e-9]), (0.0, [1e-6, 2e-9])]
+    c, n, a, tr = run_real(w2, 2, True, 10, 1)
+    if c and any(tr[-1][2]):
+        fails.append({"fingerprint": "C05:accepted-step-partially-restored", "clause": "accepted step not rejected (automatic)",
+                      "detail": {"errors": [[1.0, 1e-9], [1e-6, 2e-9]], "restored_in_accepted_iteration": tr[-1][2]},
+                      "replay": {"case": {"scripted": "w2"}}})
+    return fails
+
+
 def search(ctx, escalate=False):
     n = ctx.budget(160, 4000)
     if escalate:
         n = max(n, 1000)
     agg = explore.explore(ctx.seed, n, gen, oracle)
+    agg["failures"].extend(scripted_clause_check())
     agg["rule"] = ("histories of 2-5 pipeflow calls on one net object mixing successful runs with infeasible loads, iteration "
                    "budget 1, no supply, zero diameters; after each call: returned => converged flag, last errors/residual "
                    "within the tolerances in force, supplied in-service elements finite; PipeflowNotConverged => flag false, "
@@ -275,5 +295,7 @@ def search(ctx, escalate=False):
 
 
 def replay(ctx, payload):
+    if "scripted" in payload.get("case", {}):
+        return scripted_clause_check() or None
     explore.warm_up()
     return oracle(payload["case"]).get("failures") or None
